@@ -502,6 +502,11 @@ func shouldStopParsing(err error) bool {
 func hasMinimumBytesForKeyValuePair(remainder []byte) bool {
 	// Minimum byte length required: 2 bytes for each string length,
 	// at least 1 byte per string, one byte for =, one byte for ;
+	// A pair with an empty key or an empty value (e.g. a="") is only 4 or 5
+	// bytes long; it is still a pair when it is complete and well formed.
+	if isCompleteShortPair(remainder) {
+		return true
+	}
 	if len(remainder) < 6 {
 		log.WithFields(logger.Fields{
 			"at":     "(Mapping) Values",
@@ -510,6 +515,23 @@ func hasMinimumBytesForKeyValuePair(remainder []byte) bool {
 		return false
 	}
 	return true
+}
+
+// isCompleteShortPair reports whether remainder consists of exactly one
+// well-formed key/value pair shorter than six bytes (key and value together at
+// most one byte long).
+func isCompleteShortPair(remainder []byte) bool {
+	n := len(remainder)
+	if n < 4 || n > 5 {
+		return false
+	}
+	keyLen := int(remainder[0])
+	eq := 1 + keyLen
+	if eq+2 >= n || remainder[eq] != MAPPING_EQUALS_DELIMITER {
+		return false
+	}
+	valLen := int(remainder[eq+1])
+	return eq+2+valLen == n-1 && remainder[n-1] == MAPPING_SEMICOLON_DELIMITER
 }
 
 // parseKeyFromRemainder extracts a key string from the remainder data.
